@@ -362,6 +362,7 @@ def _worker_run(task: Task) -> dict[str, Any]:
         ctx.harness_errors.append(f"task {task.name or task.fn} crashed:\n" + "".join(traceback.format_exception(e))[-4000:])
     r = ctx.result()
     r["wall_s"] = time.time() - t0
+    r["task"] = task.name or task.fn
     return r
 
 
